@@ -271,6 +271,11 @@ def hook_paths(chk, repo, mi, fn, buf, rule):
                             quantized_branch = f.get(f"isinstance({raw}, QBytesTensor)")
                             want = f"{raw}.dequantize()" if quantized_branch else raw
                             ok = src == want and U(nb["qtype"]) == "module.activation_qtype" and U(nb["axis"]) == "None" and quantized_branch is not None
+                    if not ok and isinstance(v, ast.Call) and len(v.args) >= 2 and f.get("isinstance(module.qforward(input[0]), QBytesTensor)") is True \
+                            and any(isinstance(x, ast.Call) and isinstance(x.func, ast.Name) and x.func.id.startswith("_") for x in ast.walk(v.args[1])):
+                        # a quantized raw output measured on its codes by a private helper (an alternative route that may decline): not followed
+                        chk.unknown(rule, f"{mi.rel}:{ef[4]}", f"{fn.name}: the range of a quantized raw output is computed by `{U(v.args[1])[:60]}`: not followed")
+                        continue
                     chk.require(rule, f"{mi.rel}:{ef[4]}", ok, f"{fn.name}: output range is absmax_scale(raw qforward output (dequantized if quantized), module.activation_qtype, axis=None): `{vt[:110]}`", qn, "raw output measured by absmax_scale", "any batch: the range is measured on the already quantized (saturated) output or for another qtype")
         if guarded and p.end[0] in ("return", "fall"):
             stored_here = any(ef[0] == "store" and ef[2] == buf and U(ef[1]) == "module" for ef in p.effects)
@@ -301,6 +306,9 @@ def absmax(chk):
         e, floors = scales.peel_floor(e)
         if floors:
             chk.bad("C12.R5", site, "absmax_scale", "scale has a lower bound", f"absmax_scale floors the scale ({floors}): the calibrated scale is not max|x|/qmax for small-magnitude batches", "a batch whose absmax is below qmax x floor")
+        if isinstance(e, ast.BinOp) and isinstance(e.op, ast.Div) and scales.alternative_route(p, e.left):
+            chk.unknown("C12.R5", site, f"absmax_scale: on the path [{' & '.join(p.cond_texts())[:80]}] the range `{U(e.left)[:50]}` comes from an alternative route (a helper that may decline, partial reductions, the codes of a quantized operand): not followed")
+            continue
         if not (isinstance(e, ast.BinOp) and isinstance(e.op, ast.Div)):
             chk.bad("C12.R5", site, "absmax_scale", "scale is a quotient", f"absmax_scale returns `{U(e)[:80]}`, not range / qmax", "any tensor")
             continue
